@@ -62,7 +62,8 @@ INV = {
 
 # per property: MC configs per tier, invariants, what makes a replayed behaviour non-trivial
 PROPS = {
-    "C01": dict(mc={"quick": ["elect-q"], "thorough": ["elect-t", "repl-t"]}, mech=["StartRound"], min_mech=2),
+    "C01": dict(mc={"quick": ["elect-q"], "thorough": ["elect-t", "repl-t"]}, mech=["StartRound"], min_mech=2,
+                rnd_cfgs=[{"n": 3, "cap": 2}, {"n": 3, "cap": 100}, {"n": 4, "cap": 100}]),   # an even number of voters too
     "C02": dict(mc={"quick": ["elect-q"], "thorough": ["elect-t"]}, mech=["DeliverVQ"], min_mech=2),
     "C04": dict(mc={"quick": ["repl-q"], "thorough": ["repl-t"]}, mech=["DeliverAE"], min_mech=2),
     "C05": dict(mc={"quick": ["repl-q"], "thorough": ["repl-t"]}, mech=["DeliverAR"], min_mech=1),
